@@ -5,6 +5,11 @@
 //! rotonda-store, answers through Rib::match_prefix). `c09-soak` (special) runs
 //! T free-running writer threads plus readers on one RibUnitRunner and prints
 //! what it did as a case line for the oracle to judge.
+//! `W id f` with f >= 4 is Update::Withdraw(id, Some(family)) for a family
+//! Rib::withdraw_for_ingress has no arm for: that call panics (under the Rib's
+//! withdraw mutex, which it poisons). The panic is caught around that ONE
+//! process_update call and is its observation (`panic`); everything after it
+//! runs on the same Rib.
 use crate::engines::pipe::prefix_str;
 use crate::util::ops;
 use rotonda::payload::{Payload, RotondaPaMap, RotondaRoute, Update, UpstreamStatus};
@@ -73,8 +78,42 @@ fn payload(attrs: &Attrs, tok: &str) -> Payload {
     Payload::new(route(fam, pfx, pamap), ctx, None)
 }
 
+/// 0..3: the four families of the RIB's stores (RibModel's numbering); 4..: families the RIB cannot withdraw
 fn afisafi(f: u32) -> AfiSafiType {
-    match f { 0 => AfiSafiType::Ipv4Unicast, 1 => AfiSafiType::Ipv6Unicast, 2 => AfiSafiType::Ipv4Multicast, _ => AfiSafiType::Ipv6Multicast }
+    match f {
+        0 => AfiSafiType::Ipv4Unicast,
+        1 => AfiSafiType::Ipv6Unicast,
+        2 => AfiSafiType::Ipv4Multicast,
+        3 => AfiSafiType::Ipv6Multicast,
+        4 => AfiSafiType::Ipv4MplsUnicast,
+        5 => AfiSafiType::Ipv6MplsUnicast,
+        6 => AfiSafiType::Ipv4MplsVpnUnicast,
+        7 => AfiSafiType::Ipv6MplsVpnUnicast,
+        8 => AfiSafiType::Ipv4RouteTarget,
+        9 => AfiSafiType::Ipv4FlowSpec,
+        10 => AfiSafiType::Ipv6FlowSpec,
+        11 => AfiSafiType::L2VpnVpls,
+        12 => AfiSafiType::L2VpnEvpn,
+        n => AfiSafiType::Unsupported(1000 + n as u16, (n % 200) as u8),
+    }
+}
+
+/// how one process_update call ended
+#[derive(Clone, Copy, PartialEq, Eq, Debug)]
+enum Outcome { Ok, Err, Panic }
+
+impl Outcome {
+    fn tok(self) -> &'static str { match self { Outcome::Ok => "ok", Outcome::Err => "err", Outcome::Panic => "panic" } }
+}
+
+/// one Update through the real process_update, as DirectUpdate::direct_update
+/// runs it on the publisher's task; a panic is caught around this one call
+fn process(rt: &tokio::runtime::Runtime, rib: &RibUnitRunner, u: Update) -> Outcome {
+    match std::panic::catch_unwind(std::panic::AssertUnwindSafe(|| rt.block_on(async { rib.verif_process_update(u).await }))) {
+        Ok(Ok(())) => Outcome::Ok,
+        Ok(Err(_)) => Outcome::Err,
+        Err(_) => Outcome::Panic,
+    }
 }
 
 fn update(attrs: &Attrs, op: &[&str]) -> Update {
@@ -160,22 +199,22 @@ pub fn run_case(line: &str) -> String {
         }
     }
     let mut out: Vec<String> = vec![];
-    let exec = |progs: &mut Vec<std::collections::VecDeque<Update>>, t: usize| -> Option<bool> {
+    let exec = |progs: &mut Vec<std::collections::VecDeque<Update>>, t: usize| -> Option<Outcome> {
         let u = progs[t].pop_front()?;
-        Some(rt.block_on(async { rib.verif_process_update(u).await }).is_ok())
+        Some(process(&rt, &rib, u))
     };
     for it in &items {
         match it[0] {
             "s" => {
                 let t: usize = it[1].parse().unwrap();
-                out.push(match exec(&mut progs, t) { Some(true) => "ok".into(), Some(false) => "err".into(), None => "-".into() });
+                out.push(match exec(&mut progs, t) { Some(o) => o.tok().into(), None => "-".into() });
             }
             "q" => out.push(show_query(&rib, it[1].parse().unwrap(), it[2].parse().unwrap())),
             _ => {}
         }
     }
     for t in 0..progs.len() {
-        while let Some(ok) = exec(&mut progs, t) { if !ok { out.push("err".into()); } }
+        while let Some(o) = exec(&mut progs, t) { if o != Outcome::Ok { out.push(o.tok().into()); } }
     }
     out.push("F".into());
     for af in 0..2u32 { for p in &pfxs { out.push(show_query(&rib, af, *p)); } }
@@ -204,7 +243,7 @@ const NPFX: u32 = 5;
 /// the Updates writer t will issue: routes for its own ids on the shared
 /// prefixes (attribute numbers a with a % nthreads == t, so that a reader can
 /// tell whose attributes it sees), session-wide withdrawals of its own ids
-fn writer_ops(t: u32, nthreads: u32, n: usize, seed: u64, wd_pct: u64) -> Vec<String> {
+fn writer_ops(t: u32, nthreads: u32, n: usize, seed: u64, wd_pct: u64, unsup_pm: u64) -> Vec<String> {
     let mut r = Sm(seed ^ ((t as u64 + 1) << 32));
     // id 1 of a writer never loses its whole session, id 2 only single families, id 3 anything:
     // the final RIB then still distinguishes announced from withdrawn (the marker is sticky)
@@ -220,6 +259,11 @@ fn writer_ops(t: u32, nthreads: u32, n: usize, seed: u64, wd_pct: u64) -> Vec<St
     for k in 0..n {
         let late = k * 10 >= n * 9; // whole-session losses of id 3 mostly near the end
         let x = r.below(100);
+        // now and then a session asks for a family the RIB cannot withdraw (that call panics, nothing else may)
+        if unsup_pm > 0 && r.below(1000) < unsup_pm {
+            v.push(format!("W {} {}", id(&mut r), 4 + r.below(11)));
+            continue;
+        }
         if x < wd_pct / 2 {
             let i = wid(&mut r);
             if i % 100 == 2 || !late { v.push(format!("W {} {}", i, 1 + 2 * r.below(2))); } else { v.push(format!("W {} -", i)); }
@@ -244,15 +288,22 @@ fn writer_ops(t: u32, nthreads: u32, n: usize, seed: u64, wd_pct: u64) -> Vec<St
     v
 }
 
-/// c09-soak <writers> <ops-per-writer> <seed> <per-op-deadline-ms> <readers> [withdraw-percent]
-/// line 1: "ok ..." | "stall ..." | "corrupt ..." ; line 2: the case (p items); line 3: final answers
+/// c09-soak <writers> <ops-per-writer> <seed> <per-op-deadline-ms> <readers> [withdraw-percent] [unsupported-family-per-mille]
+/// line 1: "ok ..." | "stall ..." | "corrupt ..." | "panic ..." ; line 2: the case (p items); line 3: final answers
 pub fn soak(args: &[String]) {
     let arg = |i: usize, d: u64| args.get(i).map(|s| s.parse::<u64>().unwrap()).unwrap_or(d);
-    let (nt, nops, seed, deadline_ms, nreaders, wd_pct) = (arg(0, 8) as u32, arg(1, 1500) as usize, arg(2, 1), arg(3, 5000), arg(4, 2) as u32, arg(5, 16));
+    let (nt, nops, seed, deadline_ms, nreaders, wd_pct, unsup_pm) = (arg(0, 8) as u32, arg(1, 1500) as usize, arg(2, 1), arg(3, 5000), arg(4, 2) as u32, arg(5, 16), arg(6, 0));
     let rt = Arc::new(tokio::runtime::Builder::new_multi_thread().worker_threads(nt as usize).enable_all().build().unwrap());
     let rib = Arc::new(new_runner(&rt));
     let attrs = Arc::new(Attrs::new());
-    let texts: Vec<Vec<String>> = (0..nt).map(|t| writer_ops(t, nt, nops, seed, wd_pct)).collect();
+    let texts: Vec<Vec<String>> = (0..nt).map(|t| writer_ops(t, nt, nops, seed, wd_pct, unsup_pm)).collect();
+    // the only calls that may panic: Withdraw for a family the RIB has no arm for
+    let must_panic: Vec<Vec<bool>> = texts.iter().map(|ops_t| ops_t.iter().map(|s| {
+        let toks: Vec<&str> = s.split_whitespace().collect();
+        toks[0] == "W" && toks[2] != "-" && toks[2].parse::<u32>().unwrap() >= 4
+    }).collect()).collect();
+    let wrong_outcome: Arc<Mutex<Option<String>>> = Arc::new(Mutex::new(None));
+    let panics = Arc::new(AtomicUsize::new(0));
     // build the Updates up front so that the threads do little else than call process_update
     let progs: Vec<Vec<Update>> = texts.iter().map(|ops_t| ops_t.iter().map(|s| {
         let toks: Vec<&str> = s.split_whitespace().collect();
@@ -269,13 +320,22 @@ pub fn soak(args: &[String]) {
     let gate = Arc::new(std::sync::Barrier::new(nt as usize + 1));
     for (t, prog) in progs.into_iter().enumerate() {
         let (rib, rt, st, dn, fin, mx, gate) = (rib.clone(), rt.clone(), started[t].clone(), done_ops[t].clone(), finished.clone(), max_us.clone(), gate.clone());
+        let (expect, texts_t, wrong, panics) = (must_panic[t].clone(), texts[t].clone(), wrong_outcome.clone(), panics.clone());
         std::thread::spawn(move || {
             gate.wait();
-            for u in prog {
+            for (k, u) in prog.into_iter().enumerate() {
                 let b = Instant::now();
                 st.store(t0.elapsed().as_millis() as u64 + 1, Ordering::SeqCst);
                 // as DirectUpdate::direct_update does on the publisher's task
-                let _ = rt.block_on(async { rib.verif_process_update(u).await });
+                let o = process(&rt, &rib, u);
+                if o == Outcome::Panic { panics.fetch_add(1, Ordering::SeqCst); }
+                if (o == Outcome::Panic) != expect[k] {
+                    let mut w = wrong.lock().unwrap();
+                    if w.is_none() {
+                        *w = Some(format!("writer {} update #{} `{}` {}", t, k, texts_t[k],
+                            if expect[k] { "returned although the RIB has no support for that family" } else { "panicked" }));
+                    }
+                }
                 st.store(0, Ordering::SeqCst);
                 mx.fetch_max(b.elapsed().as_micros() as u64, Ordering::SeqCst);
                 dn.fetch_add(1, Ordering::SeqCst);
@@ -327,8 +387,11 @@ pub fn soak(args: &[String]) {
         if let Some(c) = corrupt.lock().unwrap().clone() { verdict = format!("corrupt {c}"); }
     }
     if verdict.is_empty() {
-        verdict = format!("ok writers={} updates={} reads={} max_update_us={} wall_ms={}", nt, nt as usize * nops,
-                          reads.load(Ordering::Relaxed), max_us.load(Ordering::SeqCst), t0.elapsed().as_millis());
+        if let Some(w) = wrong_outcome.lock().unwrap().clone() { verdict = format!("panic {w}"); }
+    }
+    if verdict.is_empty() {
+        verdict = format!("ok writers={} updates={} reads={} max_update_us={} wall_ms={} panics={}", nt, nt as usize * nops,
+                          reads.load(Ordering::Relaxed), max_us.load(Ordering::SeqCst), t0.elapsed().as_millis(), panics.load(Ordering::SeqCst));
     }
     println!("{verdict}");
     let mut items: Vec<String> = vec![];
